@@ -150,6 +150,8 @@ NUM_ALPHABET = "0123456789_.eExXoObB"
 
 def res(name, ok, detail="", witness=None, kind="regex", t0=None, undecided=False, backend="z3"):
     st = "discharged" if ok else ("unknown" if undecided else "refuted")
+    if isinstance(witness, dict):
+        witness = dict(witness, obligation=name)
     return Res(name, st, backend, (time.time() - t0) if t0 else 0.0, detail, kind, None if ok else witness)
 
 
